@@ -38,12 +38,14 @@ def sig_of(kind):
     return getattr(signals, "E" + kind[1:])
 
 
-def build_template(c, regs, hsm, log, use_factory=False, name_handled=False):
-    """state_method_template + register_signal_callback + register_parent on `hsm`"""
-    fns = {}
+def build_template(c, regs, hsm, log, use_factory=False, name_handled=False, fns=None):
+    """state_method_template + register_signal_callback + register_parent on `hsm`
+    (fns: template state functions already in use by another chart, to be shared)"""
     cbs = {}
-    for i in range(1, c.n + 1):
-        fns[i] = mhsm.state_method_template("s%d" % i)
+    if fns is None:
+        fns = {}
+        for i in range(1, c.n + 1):
+            fns[i] = mhsm.state_method_template("s%d" % i)
 
     def mk_cb(i, kind, cbk, tgt):
         def cb(chart, e):
@@ -111,9 +113,22 @@ def run_build(c, regs, style, start, evs, name_handled=False):
         raw = []
         fns = c.build(raw, spied=True, counter=hsm._vp_count)
     else:
-        tfns, cbs = build_template(c, regs, hsm, log, name_handled=name_handled)
+        shared = None
+        if style == "template-shared":
+            # another chart already uses (and has run) the same template state functions with its own callbacks
+            other = charts.probed_class(mhsm.HsmWithQueues)()
+            other_log = []
+            shared, _ = build_template(c, regs, other, other_log, name_handled=name_handled)
+            try:
+                other.start_at(shared[start])
+                for n in evs:
+                    other.post_fifo(charts.ev(n))
+                    other.next_rtc()
+            except (mhsm.HsmTopologyException, Diverged):
+                pass
+        tfns, cbs = build_template(c, regs, hsm, log, name_handled=name_handled, fns=shared)
         texts = {i: hsm.to_code(tfns[i]) for i in tfns}
-        if style == "template":
+        if style in ("template", "template-shared"):
             fns = tfns
         else:
             ns = {"spy_on": mhsm.spy_on, "return_status": return_status, "signals": signals}
@@ -156,6 +171,13 @@ def run_build(c, regs, style, start, evs, name_handled=False):
     return log, final, err, texts
 
 
+def norm_(log, regs, name_handled):
+    if not name_handled:
+        return log
+    h = set((i, k) for i in regs for k, cbk, _ in regs[i] if cbk == "H")
+    return [x for x in log if x not in h]
+
+
 def explore(run, n_random):
     rng = run.rng
     lines, metas = [], []
@@ -174,7 +196,12 @@ def explore(run, n_random):
         hand = run_build(c, regs, "hand", start, evs)
         tmpl = run_build(c, regs, "template", start, evs, name_handled)
         flat = run_build(c, regs, "flat", start, evs, name_handled)
-        run.traces_validated += 3
+        shar = run_build(c, regs, "template-shared", start, evs, name_handled)
+        run.traces_validated += 4
+        if norm_(shar[0], regs, name_handled) != norm_(tmpl[0], regs, name_handled) or shar[1] != tmpl[1] or shar[2] != tmpl[2]:
+            run.violate("C17/shared-template-functions", "a second chart using the same template state functions with its own callbacks ran %s "
+                        "and ended in %s (%s); a chart with fresh template functions %s, %s (%s)"
+                        % (shar[0][:30], shar[1], shar[2], tmpl[0][:30], tmpl[1], tmpl[2]), cj)
         run.count("states=%d" % c.n)
         if name_handled:
             run.count("callbacks named `handled`")
@@ -222,7 +249,7 @@ def replay(case):
     cc = case.get("case", case)
     c = charts.GenChart.from_json(cc["chart"])
     regs = {int(i): [tuple(x) for x in v] for i, v in cc["regs"].items()}
-    for style in ("hand", "template", "flat"):
+    for style in ("hand", "template", "flat", "template-shared"):
         r = run_build(c, regs, style, cc["start"], cc["events"], cc.get("name_handled", False))
         print(style, r[:3])
     return 0
